@@ -39,16 +39,35 @@ func Parseable(f *model.MFile) bool {
 	return true
 }
 
+// PlainText: the text can be read back from a file unambiguously. A line equal to the
+// terminator is stored as its escape (see EscapeEnd) and a bracketed line inside a body
+// is never looked at by ParseSnap; what remains ambiguous is a line equal to the escape
+// token itself (known finding K1) and a carriage return (documented limitation).
 func PlainText(s string) bool {
 	if strings.Contains(s, "\r") {
 		return false
 	}
 	for _, l := range strings.Split(s, "\n") {
-		if l == "---" || l == "/-/-/-/" || strings.HasPrefix(l, "[") {
+		if l == "/-/-/-/" {
 			return false
 		}
 	}
 	return true
+}
+
+// EscapeEnd: how a text appears inside a multi-entry file - a line equal to the
+// terminator `---` is stored as `/-/-/-/` (the escape named in property C01).
+func EscapeEnd(s string) string {
+	if !strings.Contains(s, "---") {
+		return s
+	}
+	ls := strings.Split(s, "\n")
+	for i, l := range ls {
+		if l == "---" {
+			ls[i] = "/-/-/-/"
+		}
+	}
+	return strings.Join(ls, "\n")
 }
 
 // ParseSnap parses the documented file layout: a sequence of entries
